@@ -112,12 +112,17 @@ def journalIsEmpty {N : Type} (d : Dir N) (name : N) : Bool :=
 
 /-! ## loaders -/
 
+/-- the largest element (`file_gen > best_gen` keeps the first maximum; generations are distinct). -/
+def maxGen : List Nat → Option Nat
+  | [] => none
+  | g :: rest =>
+    match maxGen rest with
+    | none => some g
+    | some b => some (if b < g then g else b)
+
 /-- `find_latest_lru_file` over the generations `gens` that may have a file. -/
 def lruLatest {N : Type} (genName : Nat → N) (gens : List Nat) (img : N → Option Bytes) : Option Nat :=
-  (gens.filter fun g => (img (genName g)).isSome).foldl (fun best g =>
-    match best with
-    | none => some g
-    | some b => if b < g then some g else some b) none
+  maxGen (gens.filter fun g => (img (genName g)).isSome)
 
 inductive LruLoad (S : Type) where
   /-- no checkpoint: a fresh manager -/
